@@ -13,6 +13,7 @@ From Flocq Require Import Core.Raux.
 From CB Require Import Base.Vec3 Model.C03_Relations Proofs.C03_GeomSeries Proofs.C03_Relations
   Proofs.C03_Plans Proofs.C03_Invert Proofs.C03_InvertPlans.
 From CB Require Import Gen.C03.RelTable Gen.C03.Source Proofs.C03_SourceEq.
+From CB Require Import Model.C03_Chop Gen.C03.ChopSource Proofs.C03_ChopSourceEq.
 Import ListNotations.
 Open Scope R_scope.
 
@@ -337,6 +338,59 @@ Proof.
   - unfold TOL, dy. apply Rmult_lt_0_compat; [apply IZR_lt; reflexivity|apply powerRZ_lt; lra].
 Qed.
 
+(** ** the field logic of chop.py is the model.  Gen/C03/ChopSource.v is the state-passing translation
+    (harness/props/C03_translate_chop.py, python ast -> Gallina, fail closed) of the bodies of Chop.__post_init__,
+    Chop.invert and Chop.copy_preserving as they are in the working tree NOW, over the record [chop] of the seven
+    dataclass fields ([None] result = python raises: 1 / 0.0).  For ALL field values:
+    the translated methods are the record functions of Model/C03_Chop.v; those are [post_init] / [invert] of
+    Model/C03_Relations.v on the five quantities ([data_of]: count read through int()) - the functions every
+    theorem above and the sampled correspondence speak about; inverting twice gives the chop back (on the source);
+    invert raises exactly for a zero ratio; a copy made by copy_preserving has the count of the results, exactly one
+    of the four real parameters - the preserved one, with the value of the results (reciprocal for an inverted
+    c2c_expansion), filed under the swapped kind when inverted - and the swapped preserve tag iff inverted. *)
+Definition C03_chop_source_is_model_stmt : Prop :=
+  (forall c, src_Chop___post_init__ c = Some (chop_post_init c)) /\
+  (forall c, src_Chop_invert c = chop_invert_opt c) /\
+  (forall c results inverted,
+     src_Chop_copy_preserving c results inverted = chop_copy_preserving c results inverted) /\
+  (forall c, data_of (chop_post_init c) = post_init (data_of c)) /\
+  (forall c, data_of (chop_invert c) = invert (data_of c)) /\
+  (forall c c', src_Chop_invert c = Some c' -> src_Chop_invert c' = Some c) /\
+  (forall c, src_Chop_invert c = None <-> (c_c2c_expansion c = Some 0 \/ c_total_expansion c = Some 0)) /\
+  (forall c results inverted k n v,
+     c_count results = Some n -> tag_get (c_preserve c) results = Some v ->
+     src_Chop_copy_preserving c results inverted = Some k ->
+     n_real k = 1%nat /\ c_count k = Some (IZR (Z.max (Ztrunc n) 1)) /\ c_length_ratio k = c_length_ratio c /\
+     c_preserve k = (if inverted then swap_tag (c_preserve c) else c_preserve c) /\
+     tag_get (c_preserve k) k =
+       (if inverted then match c_preserve c with PC2c => Some (/ v) | _ => Some v end else Some v)) /\
+  (forall c results k inverted,
+     src_Chop_copy_preserving c results inverted = Some k ->
+     c_preserve k = (if inverted then swap_tag (c_preserve c) else c_preserve c)).
+Theorem C03_chop_source_is_model : C03_chop_source_is_model_stmt.
+Proof.
+  unfold C03_chop_source_is_model_stmt. repeat match goal with |- _ /\ _ => split end.
+  - exact src_post_init_eq.
+  - exact src_invert_eq.
+  - exact src_copy_preserving_eq.
+  - exact post_init_data.
+  - exact invert_data.
+  - exact src_invert_involutive.
+  - exact src_invert_raises.
+  - intros c res inv k n v Hn Hv. rewrite src_copy_preserving_eq. intro H.
+    exact (copy_one_real_field c res n v inv k Hn Hv H).
+  - intros c res k inv. rewrite src_copy_preserving_eq. apply copy_preserve_tag.
+Qed.
+
+(** how a statement about the model's [invert] is read on the source: the translated invert, seen on the five
+    quantities, is the [invert] of C03_invert_partial *)
+Example source_invert_is_model_invert c c' :
+  src_Chop_invert c = Some c' -> data_of c' = invert (data_of c) /\ c_preserve c' = swap_tag (c_preserve c).
+Proof.
+  rewrite src_invert_eq. unfold chop_invert_opt. destruct (ratios_nonzero c); [|discriminate].
+  intro E; injection E as <-. split; [apply invert_data | reflexivity].
+Qed.
+
 (** how a theorem about the model is read as a theorem about the source: one relation, one plan *)
 Example source_start_size_law tol L n r s :
   src_get_start_size__count__c2c_expansion tol L n r = Some s -> 0 < r -> (r = 1 \/ tol < Rabs (r - 1)) -> 0 <= tol ->
@@ -398,3 +452,4 @@ Print Assumptions C03_invert_partial.
 Print Assumptions C03_grading_inverted.
 Print Assumptions C03_reject.
 Print Assumptions C03_source_is_model.
+Print Assumptions C03_chop_source_is_model.
